@@ -462,9 +462,9 @@ func size(r *hv.Rng) int {
 	case 2:
 		return r.Range(2, 16)
 	case 3:
-		return r.Range(120, 300)
+		return r.Range(80, 200)
 	default:
-		return r.Range(1, 60)
+		return r.Range(1, 40)
 	}
 }
 
@@ -529,8 +529,8 @@ func gen(r *hv.Rng, i int, tier string) (string, hv.Val) {
 			hv.L{hv.L{hv.I(0), hv.B{}, hv.B{}, hv.L{hv.L{hv.I(3), hv.B{1}, hv.I(0)}}, hv.I(0), hv.I(0)}}}
 		return "triv-malformed", bad[r.Intn(len(bad))]
 	}
-	n := r.Range(2, 4)
-	big := i%24 == 3
+	n := r.Range(2, 3)
+	big := i%48 == 3
 	if big {
 		n = 1
 	}
